@@ -31,6 +31,7 @@ ASSUMPTIONS = [
 ]
 SHARDS = {"quick": 8, "thorough": 16}
 FLOOR = 0.5
+EPS = float(np.finfo(float).eps)
 LINEAR = ["complex", "real", "imaginary", "complex-inv", "real-inv", "imaginary-inv"]
 REQUIRED_CLASSES = {t: [f"{x}/{r}" for x in LINEAR for r in "ZY"] + ["scale:Z", "scale:f", "reversal"] for t in ("quick", "thorough")}
 
@@ -121,6 +122,19 @@ def body(ctx, case):
     kZ, kf = case["kZ"], case["kf"]
 
     is_cnls = case["test"] == "cnls"
+    # rounding allowance: the matrix-inversion 'complex' test solves the normal equations with an explicit inverse (error
+    # ~ eps cond^2 of the equilibrated design matrix), everything else solves the design matrix itself (~ eps cond); the
+    # property is stated for well-conditioned num_RC, so this only matters beyond cond ~ 1e5 (observed: cond 9.8e5, a
+    # frequency factor of 1.0000001 moves the residuals by 1.7e-5)
+    extra = 0.0
+    if not is_cnls:
+        kind = case["test"].replace("-inv", "")
+        X = 1 / Z if adm else Z
+        cond = S.kk_design_cond(f, S.kk_taus(f, case["num_RC"], case["log_F_ext"]), case["addC"], True if case["test"].endswith("-inv") else case["addL"], adm, X, kind)
+        extra = EPS * cond * cond if case["test"] == "complex-inv" else 10 * EPS * cond
+        extra = min(extra, 1e-2)
+        if cond > 1e5:
+            labels.add("cond>1e5")
 
     class _Route:
         """All unit-scaling clauses of the cnls implementation are one clause (one known finding, F38)."""
@@ -141,8 +155,8 @@ def body(ctx, case):
         r = np.asarray(res.residuals)
         dev = float(np.max(np.abs(r - r0)))
         ctx.observe(f"residual-change/{tag}", dev / max(scale, 1e-300))
-        ok = route.check(_close_res(r, r0, scale), f"residuals-invariant:{tag}", case, f"{sorted(labels)}: relative residuals changed by {dev:.3e} (max |residual| {scale:.3e})")
-        ok &= route.check(abs(res.pseudo_chisqr - base.pseudo_chisqr) <= 1e-4 * base.pseudo_chisqr + 1e-18, f"chisqr-invariant:{tag}", case,
+        ok = route.check(_close_res(r, r0, scale) or dev <= extra, f"residuals-invariant:{tag}", case, f"{sorted(labels)}: relative residuals changed by {dev:.3e} (max |residual| {scale:.3e})")
+        ok &= route.check(abs(res.pseudo_chisqr - base.pseudo_chisqr) <= (1e-4 + 2 * extra / max(scale, 1e-300)) * base.pseudo_chisqr + 1e-18, f"chisqr-invariant:{tag}", case,
                         f"pseudo chi-squared {base.pseudo_chisqr:.6e} -> {res.pseudo_chisqr:.6e}")
         tc = np.asarray(res.get_time_constants())
         ok &= route.check(tc.shape == tc0.shape and bool(np.all(np.abs(tc * sf - tc0) <= 1e-11 * tc0)), f"time-constants-rescale:{tag}", case, f"time constants {tc[:3]} vs {tc0[:3]}/k_f")
